@@ -25,6 +25,12 @@ Definition i32max : Z := 2147483647.
 Definition run_cut_z (right ab nullable : bool) (edges : list Z) (nlab : nat) (xs : list (option Z)) : list Z :=
   enc_cut nullable (vcut Z.ltb Z.leb i32min i32max right ab edges (labs nlab) xs).
 
+(* 64-bit element types: the bounds that add_bounds materialises are those of the element type *)
+Definition run_cut_z64 (right ab nullable : bool) (edges : list Z) (nlab : nat) (xs : list (option Z)) : list Z :=
+  enc_cut nullable (vcut Z.ltb Z.leb (-9223372036854775808) 9223372036854775807 right ab edges (labs nlab) xs).
+Definition run_cut_u64 (right ab nullable : bool) (edges : list Z) (nlab : nat) (xs : list (option Z)) : list Z :=
+  enc_cut nullable (vcut Z.ltb Z.leb 0 18446744073709551615 right ab edges (labs nlab) xs).
+
 (* f64::MAX = (2^53 - 1) * 2^971 *)
 Definition f64max : float := fl 9007199254740991 971.
 Definition f64min : float := fl (-9007199254740991) 971.
